@@ -177,7 +177,8 @@ u_count_first!(c12_union_count_first__tr_tr16, Tr, Tr16, Tr::new());
 u_count_second!(c12_union_count_second__tr_tr16, Tr, Tr16, Tr16::new());
 // @h props=C12,C01,C04,C16 tier=thorough fuc=ArcUnion::clone,ArcBorrow::clone_arc,ArcUnion::ptr_eq
 u_clone_first!(c12_union_clone_first__tr_tr16, Tr, Tr16, Tr::new());
-// @h props=C12,C01,C04,C16,C03,C08,C09 fuc=ArcUnion::clone,ArcBorrow::clone_arc,ArcUnion::ptr_eq
+// (thorough tier since round 7: the size of this obligation's formula is chaotic across builds and even across invocations - 70 s or past 15 min - which a quick check with a time limit cannot afford; the quick tier keeps the count/accessor/constructor/release obligations of the union)
+// @h tier=thorough props=C12,C01,C04,C16,C03,C08,C09 fuc=ArcUnion::clone,ArcBorrow::clone_arc,ArcUnion::ptr_eq
 u_clone_second!(c12_union_clone_second__tr_tr16, Tr, Tr16, Tr16::new());
 // @h props=C12,C01,C04,C05 fuc=ArcUnion::drop,Arc::from_raw,Arc::drop
 u_drop_first!(c12_union_drop_first__tr_tr16, Tr, Tr16, Tr::new(), 0, 1);
